@@ -306,6 +306,9 @@ func (g *jsonGen) junk() *jnode {
 
 // mutate applies one single-point mutation and names its class ("" when nothing applicable was found).
 func (g *jsonGen) mutate(root *jnode) string {
+	if root.kind != 'o' || len(root.keys) == 0 {
+		return "" // an earlier mutation emptied the document
+	}
 	var objs []*jnode
 	collectObjects(root, &objs)
 	pickMember := func(pred func(string, *jnode) bool) (member, bool) {
@@ -402,6 +405,9 @@ func (g *jsonGen) mutate(root *jnode) string {
 	case 7: // a value replaced by null / another JSON type
 		var ms []member
 		collectMembers(root, func(string, *jnode) bool { return true }, &ms)
+		if len(ms) == 0 {
+			return ""
+		}
 		m := ms[g.r.Intn(len(ms))]
 		m.obj.vals[m.idx] = g.junk()
 		return "wrong-type/" + m.obj.keys[m.idx].dec
@@ -506,6 +512,9 @@ func (g *jsonGen) mutate(root *jnode) string {
 	case 13: // a field removed
 		var ms []member
 		collectMembers(root, func(string, *jnode) bool { return true }, &ms)
+		if len(ms) == 0 {
+			return ""
+		}
 		m := ms[g.r.Intn(len(ms))]
 		name := m.obj.keys[m.idx].dec
 		m.obj.keys = append(m.obj.keys[:m.idx], m.obj.keys[m.idx+1:]...)
@@ -522,6 +531,9 @@ func (g *jsonGen) mutate(root *jnode) string {
 	default: // an escaped key
 		var ms []member
 		collectMembers(root, func(k string, _ *jnode) bool { return len(k) > 0 }, &ms)
+		if len(ms) == 0 {
+			return ""
+		}
 		m := ms[g.r.Intn(len(ms))]
 		k := m.obj.keys[m.idx]
 		m.obj.keys[m.idx] = jkey{raw: fmt.Sprintf(`\u%04x`, k.dec[0]) + k.raw[1:], dec: k.dec}
